@@ -51,6 +51,35 @@ def generate(rng, tier):
         S(tx, 0, rng.choice(G.FORKID_FLAGS), G.P2PKH, v)
     for idx in [2, 3, 255, 256, 2 ** 32 - 1, 2 ** 32, 2 ** 63, 2 ** 64 - 1]:
         S(tx, idx, rng.choice(G.FORKID_FLAGS), G.P2PKH, 5)
+    # 4b. audit classes, deterministic.  Values on the signed/unsigned boundary and with leading zero bytes: every flag
+    t0 = G.EXTREME_TXS[0]
+    for fl in G.FORKID_FLAGS:
+        for v in G.VALUES:
+            S(t0, 1, fl, G.P2PKH, v)
+    # 32-bit fields = 0 / 1 / 0x7fffffff / 0x80000000 / 0xfffffffe / 0xffffffff on the signed and on the other inputs, distinct
+    # output values, outpoint index != position, duplicate outpoints: every flag x every index (and one beyond)
+    for t in G.EXTREME_TXS + [G.LONG_OUT_TX]:
+        for fl in G.FORKID_FLAGS:
+            for idx in range(4):
+                S(t, idx, fl, G.P2PKH, 2 ** 63 + idx)
+    # one input; no outputs
+    for t in G.SHAPE_TXS:
+        for fl in G.FORKID_FLAGS:
+            for idx in range(3):
+                S(t, idx, fl, "ac", 1)
+    # code separators must be kept verbatim on this path, in every neighbourhood (core ones under every flag)
+    for k, sc in enumerate(G.SEP_SCRIPTS):
+        for fl in (G.FORKID_FLAGS if sc in G.CORE_SEP else [G.FORKID_FLAGS[k % 6], G.FORKID_FLAGS[(k + 3) % 6]]):
+            S(G.EXTREME_TXS[k % 3], k % 3, fl, sc, 1000 + k)
+    # subscript lengths on the compact-size thresholds (and totals whose low byte looks like one): every flag
+    for n in G.SUB_LENS:
+        for k, fl in enumerate(G.FORKID_FLAGS):
+            if n >= 65021 and tier == "quick" and k % 3 != (n % 3):
+                continue
+            S(G.EXTREME_TXS[1], k % 3, fl, "4d%s+l:%d:%d" % ((n - 3).to_bytes(2, "little").hex(), n, n - 3) if 259 <= n <= 65538 else G.sized_script(rng, n), 77)
+    # 253 inputs / 256 outputs (counts on the compact-size boundary inside the hashed strings)
+    for (fl, idx) in [(0x41, 252), (0x43, 252), (0xC1, 0), (0x43, 255)]:
+        cases.append(("tx.sighash", [G.BIG_COUNT_TX, str(idx), str(fl), "ac", "1"]))
     # 5. random bulk
     for _ in range(120 if tier == "quick" else 1500):
         nin, nout = rng.randrange(1, 7), rng.randrange(0, 7)
@@ -70,6 +99,10 @@ def generate(rng, tier):
         tx = G.mk_tx(rng, nin, nout)
         cases.append(("tx.sign_verify", [tx.hex(), rng.choice(KEYS + [G.rbytes(rng, 31).hex() + "07"]), str(rng.choice(G.FORKID_FLAGS)),
                                          str(rng.randrange(nin + 1)), rng.choice([G.P2PKH, G.small_script(rng).hex()]), str(G.value(rng))]))
+    for k, fl in enumerate(G.FORKID_FLAGS):
+        t = G.EXTREME_TXS[k % 3]
+        cases.append(("tx.sign_verify", [t.hex(), KEYS[k % 3], str(fl), str(k % 3), G.SEP_SCRIPTS[k + 8], str(G.VALUES[k])]))
+        cases.append(("tx.sign_verify", [t.hex(), KEYS[(k + 1) % 3], str(fl), str((k + 1) % 3), G.P2PKH, str(G.VALUES[k + 3]), KEYS[k % 3]]))
     return cases
 
 
